@@ -1055,7 +1055,11 @@ def parse_primary_expr(lexer, unary_minus=False):
         elif token.value == "continue" and token.type == "keyword":
             result = NodeContinue(token.pos)
         elif token.value == "return" and token.type == "keyword":
-            if lexer.peekn(1, ";", "interpunction"):
+            if (
+                not lexer.hasNext()
+                or lexer.peekn(1, ";", "interpunction")
+                or lexer.peekn(1, "end", "keyword")
+            ):
                 result = NodeReturn(None, token.pos)
             else:
                 result = NodeReturn(parse_expression(lexer), token.pos)
